@@ -72,6 +72,7 @@ func linForm(v ssa.Value, sym ssa.Value) (lin, bool) {
 
 func runC03(p *core.Program, r *core.Report) {
 	c := rc{p, r}
+	noSingledOutValue(c, []string{"heap/heap.go", "heap/heapsort.go"}, nil)
 	noAnswerBeforeTheScan(c, "heap.FromSlice", "heap.Sort")
 	copiesWholeSlice(c, "heap.(*Heap).GetValues", "Heap", "data")
 	resultUntouchedAfterTheScan(c, "heap.FromSlice", "heap.Sort")
